@@ -213,6 +213,8 @@ class T:
                 if kind == "no_change":
                     self.c.assume(self.d_nc_all(r))
                     self.c.assume(self.d_tangent(r) == self.nc_tree(p))
+                else:
+                    self.c.assume(self.d_nc_all(r) == self.c.fn("has_no_leaves", U, B)(p))
                 return UVal(r, v.cls if v.cls == "tuple" else "retdiff")
         ch = externals.tree_children(I, v)
         if ch is not None:
@@ -306,9 +308,24 @@ class T:
         if z3.is_app(t) and t.decl().name() == "sel_not":
             return self.sel_invert(I, self.sel_sub_(I, UVal(t.arg(0), "Selection"), addr))
         r = self.sel_sub(t, a)
+        self.sel_nf(r)
         self.c.assume(z3.Implies(t == self.SEL_ALL, r == self.SEL_ALL))
         self.c.assume(z3.Implies(t == self.SEL_NONE, r == self.SEL_NONE))
         return UVal(r, "Selection")
+
+    def sel_nf(self, t):
+        """normal form of selections (established by the simplifying constructors, proved in contracts/selection.py):
+        a ComplementSel never wraps AllSel / NoneSel / ComplementSel"""
+        f = self.c.fn
+        isC, isA, isN = f("is_ComplementSel", U, B), f("is_AllSel", U, B), f("is_NoneSel", U, B)
+        s = f("ComplementSel.s", U, U)(t)
+        self.c.assume(z3.Implies(isC(t), z3.And(z3.Not(isA(s)), z3.Not(isN(s)), z3.Not(isC(s)))))
+
+    def view_hook(self, I, v, o):
+        if v.cls == "Selection":
+            for x in o.fields.values():
+                if isinstance(x, UVal) and x.cls == "Selection":
+                    self.sel_nf(x.t)
 
     def sel_invert(self, I, s):
         r = self.sel_not(s.t)
@@ -329,6 +346,7 @@ class Theory:
         externals.install(I)
         self.t = t = T(I)
         I.T = t
+        I.view_hook = t.view_hook
         I.abstract_classes = {
             "Trace": GF + ":Trace", "GenerativeFunction": GF + ":GenerativeFunction", "ChoiceMap": CM + ":ChoiceMap",
             "Selection": CM + ":Selection", "EditRequest": CONCEPTS + ":EditRequest",
@@ -355,6 +373,13 @@ class Theory:
         am[("Selection", "check")] = t.sel_check_
         am[("Selection", "get_subselection")] = t.sel_sub_
         am[("Selection", "__invert__")] = t.sel_invert
+
+        def prim_bind(I, prim, *args, **params):
+            f = I.ctx.fn("prim_bind", U, U, U, U)
+            r = f(prim.t, I.to_u(tuple(args)), I.to_u(params))
+            I.ctx.assume(t.d_primal(r) == r)      # outputs of a primitive are plain arrays (no Diff leaves)
+            return UVal(r)
+        am[("Primitive", "bind")] = prim_bind
 
         # Diff helpers: real bodies on structured trees, laws (C21 lemmas) on opaque sub-trees
         def wrap(kind):
